@@ -35,9 +35,12 @@ class Runner:
         self.wd = synth.Workdir()
         self.parsers = {"x86": ParserX86ATT(), "aarch64": ParserAArch64()}
 
-    def build(self, case, text=None, timeout=-1):
+    def build(self, case, text=None, timeout=-1, dg_class=None):
         """-> (kernel, KernelDG, mm, sem); model files are removed again."""
         from osaca.semantics import KernelDG
+
+        if dg_class is not None:
+            KernelDG = dg_class
         from checks.c01 import _rm
 
         arch, isa = deps.model_dicts(case)
